@@ -270,19 +270,25 @@ def r_txn(E):
 
 
 def _zip_loop(fn):
-    """(guard test, loop var names, zip arg texts, receiver var, argument var, flag value) of set/reset methods"""
-    top = [s for s in fn.body if isinstance(s, ast.If)]
-    if len(top) != 1:
+    """set/reset methods: the zip loop that swaps the values, the conditions it runs under (as a formula over the path
+    conditions: `if g: loop` and `if not g: return; loop` read the same) and the flag assignment under the same
+    conditions"""
+    from ..astutil import path_conditions, expanded
+    from ..paths import path_formula, implies
+    loop = next((n for n in ast.walk(fn) if isinstance(n, ast.For) and isinstance(n.iter, ast.Call)
+                 and isinstance(n.iter.func, ast.Name) and n.iter.func.id == "zip"), None)
+    if loop is None:
         return None
-    iff = top[0]
-    loop = next((s for s in iff.body if isinstance(s, ast.For)), None)
-    flag = next((s for s in iff.body if isinstance(s, ast.Assign)), None)
-    if loop is None or flag is None:
+    flags = [n for n in ast.walk(fn) if isinstance(n, ast.Assign) and isinstance(n.targets[0], ast.Attribute)
+             and isinstance(n.value, ast.Constant) and isinstance(n.value.value, bool)]
+    if len(flags) != 1:
         return None
-    if not (isinstance(loop.iter, ast.Call) and isinstance(loop.iter.func, ast.Name) and loop.iter.func.id == "zip"):
+    flag = flags[0]
+    g_loop, g_flag = path_formula(path_conditions(loop, fn), fn), path_formula(path_conditions(flag, fn), fn)
+    if not (implies(g_loop, g_flag) and implies(g_flag, g_loop)):
         return None
     vars_ = [e.id for e in loop.target.elts] if isinstance(loop.target, ast.Tuple) else None
-    zargs = [norm(a) for a in loop.iter.args]
+    zargs = [norm(expanded(a, fn)) for a in loop.iter.args]
     call = next((c for c in _calls(loop) if isinstance(c.func, ast.Attribute)
                  and c.func.attr == "replace_in_mod_obj_container_without_recomputation"), None)
     if call is None or vars_ is None:
@@ -291,8 +297,8 @@ def _zip_loop(fn):
     arg = call.args[0].id if call.args and isinstance(call.args[0], ast.Name) else None
     if recv not in vars_ or arg not in vars_:
         return None
-    return dict(guard=norm(iff.test), recv_list=zargs[vars_.index(recv)], arg_list=zargs[vars_.index(arg)],
-                flag=norm(flag), zargs=zargs, others=[s for s in iff.body if s is not loop and s is not flag])
+    return dict(guard=g_loop, recv_list=zargs[vars_.index(recv)], arg_list=zargs[vars_.index(arg)],
+                flag=norm(flag), flag_attr=norm(flag.targets[0]), zargs=zargs)
 
 
 @rule("R-MIRROR")
@@ -326,19 +332,22 @@ def r_mirror(E):
         res.undecided.append("cannot tell which zipped list holds the previous values")
     elif sa["recv_list"] != prev_list or sb["arg_list"] != prev_list:
         probs.append("set must replace the previous values by the new ones and reset the new ones by the previous")
-    if not ((sa["guard"] == f"not {sb['guard']}") or (sb["guard"] == f"not {sa['guard']}")):
-        probs.append(f"guards are not opposite ({sa['guard']} / {sb['guard']})")
-    if not (sa["flag"].endswith("= True") and sb["flag"].endswith("= False")
-            and sa["flag"].split("=")[0] == sb["flag"].split("=")[0]):
+    from ..paths import implies, parse
+    equiv = lambda f, g: implies(f, g) and implies(g, f)
+    if not (sa["flag"].endswith("= True") and sb["flag"].endswith("= False") and sa["flag_attr"] == sb["flag_attr"]):
         probs.append(f"flag updates are not opposite ({sa['flag']} / {sb['flag']})")
-    if "not" not in sa["guard"]:
-        probs.append("set_updated_values must be guarded by `not self.updated_values_set`")
+    else:
+        fl = parse(sa["flag_attr"])
+        if not equiv(sa["guard"], ("not", sb["guard"])):
+            probs.append("guards are not opposite")
+        if not equiv(sa["guard"], ("not", fl)):
+            probs.append(f"set_updated_values must be guarded by `not {sa['flag_attr']}`")
     for p in probs:
         res.findings.append(Finding("R-MIRROR", f"set/reset :: {p[:100]}", f"set_updated_values / reset_values: {p}: "
                                     f"toggling a simulation on and off does not return to the same baseline objects",
                                     rel, b.lineno, "ModelingUpdate.reset_values"))
-    res.samples = [{"set_updated_values": {k: v for k, v in sa.items() if k != "others"},
-                    "reset_values": {k: v for k, v in sb.items() if k != "others"}}]
+    res.samples = [{"set_updated_values": {k: v for k, v in sa.items() if k != "guard"},
+                    "reset_values": {k: v for k, v in sb.items() if k != "guard"}}]
     res.floor = 1
     return res
 
